@@ -197,10 +197,12 @@ def export_replay(module, cfg, engine, tier, tag, seed=0, stride=1, timeout=900,
     return res
 
 
-def record(engine, seed, runs, steps, out_path, extra=None):
+def record(engine, seed, runs, steps, out_path, extra=None, env_extra=None):
     cmd = [VH, "record", engine, "--seed", str(seed), "--runs", str(runs), "--steps", str(steps),
            "--out", out_path] + (extra or [])
-    p = subprocess.run(cmd, stdout=subprocess.PIPE, stderr=subprocess.PIPE, text=True, timeout=1800)
+    env = dict(os.environ)
+    env.update(env_extra or {})
+    p = subprocess.run(cmd, stdout=subprocess.PIPE, stderr=subprocess.PIPE, text=True, timeout=1800, env=env)
     if p.returncode != 0:
         raise ToolError(f"vh record {engine} failed: {p.stderr[-2000:]}")
     return json.loads(p.stdout.strip().splitlines()[-1])
@@ -255,7 +257,7 @@ def record_and_validate(engine, module, cfg, tier, tag, seed, runs, steps, chunk
     wall = 0.0
     for c in range(chunks):
         path = os.path.join(WORK, f"trace_{tag}_{c}.ndjson")
-        rec = record(engine, seed * 1000 + c, runs, steps, path, extra)
+        rec = record(engine, seed * 1000 + c, runs, steps, path, extra, env_extra=extra_env)
         total_events += rec["events"]
         for k, v in rec.get("counters", {}).items():
             if isinstance(v, (int, float)):
@@ -307,8 +309,12 @@ def finding_for(prop, key):
     return None
 
 
+CURRENT = [None]
+
+
 class Verdict:
     def __init__(self, prop, tier, seed, level):
+        CURRENT[0] = self
         self.prop, self.tier, self.seed, self.level = prop, tier, seed, level
         self.t0 = time.time()
         self.coverage = {"states": 0, "transitions": 0, "traces_validated_against_impl": 0, "samples": [],
